@@ -40,7 +40,7 @@ InitFrom(r) ==
   /\ opened = [d \in Docs |-> r.docs[d] # "ABSENT"] /\ pending = {} /\ loaded = TRUE
   /\ dbText = [d \in Docs |-> Tok(r.docs[d])] /\ dbVer = [d \in Docs |-> 0] /\ cancelFlag = FALSE /\ taken = {}
   /\ tasks = <<>> /\ inflight = {} /\ nextDiag = 1 /\ diagTask = [d \in Docs |-> 0]
-  /\ retq = <<>> /\ evq = <<>> /\ published = [d \in Docs |-> [ver |-> 0, c |-> "ok"]]
+  /\ retq = <<>> /\ evq = <<>> /\ published = [d \in Docs |-> [ver |-> 0, c |-> r.pubc[d]]]   \* as left by the open phase
 
 TInit == l = 2 /\ Rec[1].ev = "Reset" /\ InitFrom(Rec[1]) /\ TLCSet(1, 2)
 
@@ -54,7 +54,7 @@ ResetTo(r) ==
   /\ opened' = [d \in Docs |-> r.docs[d] # "ABSENT"] /\ pending' = {} /\ loaded' = TRUE
   /\ dbText' = [d \in Docs |-> Tok(r.docs[d])] /\ dbVer' = [d \in Docs |-> 0] /\ cancelFlag' = FALSE /\ taken' = {}
   /\ tasks' = <<>> /\ inflight' = {} /\ nextDiag' = 1 /\ diagTask' = [d \in Docs |-> 0]
-  /\ retq' = <<>> /\ evq' = <<>> /\ published' = [d \in Docs |-> [ver |-> 0, c |-> "ok"]]
+  /\ retq' = <<>> /\ evq' = <<>> /\ published' = [d \in Docs |-> [ver |-> 0, c |-> r.pubc[d]]]
 Reset == Is("Reset") /\ ResetTo(E)
 
 Mon(t) == LET r == tasks'[t] IN
